@@ -28,19 +28,28 @@ class ProbeError(Exception):
 class Log(object):
     """Probe events of one thread; keeps every observed context object alive so that id() stays unique."""
 
-    def __init__(self, thread=1):
+    def __init__(self, thread=1, sched=None):
         self.thread = thread
-        self.events = []     # (gseq, node, tag, ctx object, status letter, converted?, stack depth, exception name)
+        self.sched = sched   # optional deterministic scheduler: every probe is a yield point
+        self.count = 0       # calls made so far: nodes are numbered in the order their call is reached
+        self.events = []     # (gseq, node, tag, ctx object, status letter, converted?, stack depth, exception name, kind)
         self.keep = []
 
 
 def probe(n, tag):
+    log = n.log
+    if tag == 'pre':
+        log.count += 1
+        n.name = log.count
+    if log.sched is not None:
+        log.sched.arrive(log.thread)
     c = ag_ctx.control_status_ctx()
     # a converted body reaches this artifact through converted_call -> _call_unconverted
     conv = sys._getframe(1).f_code.co_name == '_call_unconverted'
     et = sys.exc_info()[0]
-    n.log.events.append((next(GSEQ), n.name, tag, c, STNAME.get(getattr(c, 'status', None), '?'), conv,
-                         len(ag_ctx._control_ctx()), et.__name__ if et is not None else ''))
+    log.events.append((next(GSEQ), n.name, tag, c, STNAME.get(getattr(c, 'status', None), '?'), conv,
+                       len(ag_ctx._control_ctx()), et.__name__ if et is not None else '',
+                       n.kind if tag == 'pre' else None))
 
 
 api.autograph_artifact(probe)
@@ -81,8 +90,6 @@ class Node(object):
         if w == 'ic':
             if k['src'] == 'cur':
                 ctx = ag_ctx.control_status_ctx()
-            elif k['src'] == 'pub':
-                ctx = self.log.published[0]
             else:
                 ctx = ag_ctx.ControlStatusCtx(status=STATUS[k['src']])
             self.log.keep.append(ctx)
@@ -109,10 +116,13 @@ def body(n):
 
 
 def build(tree, log):
-    """tree: list of {p, k, catch, raises} in creation order (node i+1 = tree[i], node 0 = the driver)."""
+    """tree: list of {p, k, catch, raises}; node i+1 = tree[i], its parent p < i+1, node 0 = the driver.
+
+    Nodes get their trace name when their call is reached (probe 'pre'); parts of the tree behind an
+    uncaught raise are never executed and never named."""
     nodes = [Node(0, {'w': 'plain'}, log)]
     for i, rec in enumerate(tree):
-        nd = Node(i + 1, rec['k'], log, rec['catch'], rec['raises'])
+        nd = Node(-1, rec['k'], log, rec['catch'], rec['raises'])
         nodes.append(nd)
         nodes[rec['p']].children.append(nd)
     return nodes[0]
@@ -127,3 +137,46 @@ def run_tree(tree, log, driver_raises=False):
     except Exception as e:
         return type(e).__name__
     return ''
+
+
+class Sched(object):
+    """Deterministic scheduler: exactly one thread runs at a time; probes are the yield points.
+
+    `order` lists the thread of every probe event in the order in which the events must happen.  A thread
+    that reaches a probe gives up the processor and waits until it is its turn *and* nobody else is running;
+    it then performs the probe and keeps running until its next probe (or its end).  If the real code makes
+    different probes than the schedule expects, waiting threads time out and the run continues unscheduled
+    (`diverged`); the recorded trace is judged by TLC either way."""
+
+    def __init__(self, order, timeout=2.0):
+        import threading
+        self.order = list(order)
+        self.pos = 0
+        self.running = None
+        self.diverged = False
+        self.timeout = timeout
+        self.cv = threading.Condition()
+
+    def arrive(self, t):
+        with self.cv:
+            if self.running == t:
+                self.running = None
+                self.cv.notify_all()
+            while not self.diverged:
+                if self.pos >= len(self.order):
+                    self.diverged = True
+                    self.cv.notify_all()
+                    break
+                if self.running is None and self.order[self.pos] == t:
+                    self.running = t
+                    self.pos += 1
+                    return
+                if not self.cv.wait(self.timeout):
+                    self.diverged = True
+                    self.cv.notify_all()
+
+    def finish(self, t):
+        with self.cv:
+            if self.running == t:
+                self.running = None
+            self.cv.notify_all()
